@@ -121,13 +121,16 @@ def gen_clump(rng, tier):
         medium = rng.random() < 0.05
         if medium:
             nv, ns = rng.randint(17, 45), rng.randint(17, 40)
-        chroms = rng.sample(["1", "2", "X"], rng.randint(1, 2))
+        dense = (not medium) and rng.random() < 0.04  # 26-40 tandem repeats with missing calls inside one window
+        if dense:
+            nv, ns = rng.randint(26, 40), rng.randint(12, 20)
+        chroms = rng.sample(["1", "2", "X"], rng.randint(1, 2)) if not dense else [rng.choice(["1", "2", "X"])]
         variants = []
         used = set()
         dup_ids = rng.random() < 0.35  # several variants share an ID ('.' placeholders, SNP/indel pairs with one rsID)
         for j in range(nv):
             while True:
-                c, pos = rng.choice(chroms), (rng.choice([100, 600, 1100, 1500, 2000, 32399, 100000, 251000, 500000]) if not medium else 100 * rng.randint(1, 3000))
+                c, pos = rng.choice(chroms), (rng.choice([100, 600, 1100, 1500, 2000, 32399, 100000, 251000, 500000]) if not (medium or dense) else (100 * rng.randint(1, 3000) if medium else 500 * rng.randint(1, 400)))
                 if (c, pos) not in used:
                     used.add((c, pos))
                     break
@@ -149,7 +152,7 @@ def gen_clump(rng, tier):
         rows = list(range(nv))
         rng.shuffle(rows)
         # SNP-only, STR-only or mixed input: an STR's alleles are repeat copy numbers (1..7 whole units), its dosage their sum
-        mode = rng.choice(["snp", "snp", "str", "mixed", "mixed"])
+        mode = rng.choice(["snp", "snp", "str", "mixed", "mixed"]) if not dense else "str"
         types = ["SNP" if mode == "snp" or (mode == "mixed" and rng.random() < 0.5) else "STR" for _ in range(nv)]
         for j in range(nv):
             if types[j] == "STR":
@@ -163,7 +166,7 @@ def gen_clump(rng, tier):
                     # r2 is taken over the samples called at both variants
                     for k in rng.sample(range(ns), rng.randint(1, max(1, ns // 3))):
                         gts[j][k] = None
-        yield {"types": types, "variants": variants, "gts": gts, "order": rows, "p1": rng.choice(["0.0001", "0.01", "0.1", "0.6", "1"]), "p2": rng.choice(["0.01", "0.3", "1"]), "kb": rng.choice([0.001, 0.5, 1, 250, 250, 0.5002, 1.9003, 0.4003, 32.3]), "r2": rng.choice([0.0, 0.1, 0.5, 0.9]), "ld": rng.choice(["Pearson", "Pearson", "Exact"]) if mode == "snp" else "Pearson", "cols": rng.choice([["SNP", "CHR", "POS", "P"], ["P", "POS", "SNP", "CHR"], ["CHR", "junk", "SNP", "P", "POS"]]), "names": rng.choice([None, {"SNP": "ID", "P": "p-value", "CHR": "CHROM", "POS": "position"}]), "pgen": rng.random() < 0.3 and mode != "str"}
+        yield {"types": types, "variants": variants, "gts": gts, "order": rows, "p1": rng.choice(["0.0001", "0.01", "0.1", "0.6", "1"]), "p2": rng.choice(["0.01", "0.3", "1"]), "kb": rng.choice([0.001, 0.5, 1, 250, 250, 0.5002, 1.9003, 0.4003, 32.3]) if not dense else 250, "r2": rng.choice([0.0, 0.1, 0.5, 0.9]), "ld": rng.choice(["Pearson", "Pearson", "Exact"]) if mode == "snp" else "Pearson", "cols": rng.choice([["SNP", "CHR", "POS", "P"], ["P", "POS", "SNP", "CHR"], ["CHR", "junk", "SNP", "P", "POS"]]), "names": rng.choice([None, {"SNP": "ID", "P": "p-value", "CHR": "CHROM", "POS": "position"}]), "pgen": rng.random() < 0.3 and mode != "str"}
 
 
 def loaded_order(case):
